@@ -237,7 +237,7 @@ func planC10life(c *Ctx, run int64) *Plan {
 			case "meta", "meta-rm":
 				op.S, op.S2 = Pick(r, []string{"m1", "m2"}), Pick(r, []string{"x", "y"})
 			case "notes":
-				op.S = Pick(r, []string{"", "n1", "n2"})
+				op.S = Pick(r, []string{"", "n1", "n2", "not n1", "n2 and more"})
 			}
 		case v < wCalc+wEdit+wSign+wBadSign+wUnsign+wHdr+wObs:
 			op = Op{K: Pick(r, []string{"validate", "validate", "verify"}), I: int64(r.IntN(4))}
